@@ -103,7 +103,7 @@ fn compile_native_asset_for_output(
     ir: &tir::AssetExpr,
 ) -> Result<primitives::Multiasset<primitives::PositiveCoin>, Error> {
     let policy = coercion::expr_into_bytes(&ir.policy)?;
-    let policy = primitives::Hash::from(policy.as_slice());
+    let policy = coercion::bytes_into_hash(policy.as_slice())?;
     let asset_name = coercion::expr_into_bytes(&ir.asset_name)?;
     let amount = coercion::expr_into_number(&ir.amount)?;
     let amount = u64::try_from(amount)
@@ -121,7 +121,7 @@ fn compile_native_asset_for_mint(
     is_burn: bool,
 ) -> Result<primitives::Multiasset<primitives::NonZeroInt>, Error> {
     let policy = coercion::expr_into_bytes(&ir.policy)?;
-    let policy = primitives::Hash::from(policy.as_slice());
+    let policy = coercion::bytes_into_hash(policy.as_slice())?;
     let asset_name = coercion::expr_into_bytes(&ir.asset_name)?;
     let amount = coercion::expr_into_number(&ir.amount)?;
 
@@ -309,16 +309,13 @@ fn without_duplicates<T: PartialEq>(items: Vec<T>) -> Vec<T> {
 }
 
 fn compile_inputs(tx: &tir::Tx) -> Result<Vec<primitives::TransactionInput>, Error> {
-    let mut refs: Vec<_> = tx
+    let mut refs = tx
         .inputs
         .iter()
         .flat_map(|x| coercion::expr_into_utxo_refs(&x.utxos))
         .flatten()
-        .map(|x| primitives::TransactionInput {
-            transaction_id: x.txid.as_slice().into(),
-            index: x.index as u64,
-        })
-        .collect();
+        .map(|x| coercion::utxo_ref_into_input(&x))
+        .collect::<Result<Vec<_>, _>>()?;
 
     // the UTxOs of an input come out of a hash set: emit them in the ledger's canonical order so
     // that the same template always compiles to the same bytes
@@ -465,7 +462,7 @@ fn compile_vote_delegation_certificate(
 ) -> Result<primitives::Certificate, Error> {
     let stake = coercion::expr_into_stake_credential(&x.data["stake"], network)?;
     let drep = coercion::expr_into_bytes(&x.data["drep"])?;
-    let drep = primitives::DRep::Key(drep.as_slice().into());
+    let drep = primitives::DRep::Key(coercion::bytes_into_hash(drep.as_slice())?);
 
     Ok(primitives::Certificate::VoteDeleg(stake, drep))
 }
@@ -489,11 +486,8 @@ fn compile_reference_inputs(tx: &tir::Tx) -> Result<Vec<primitives::TransactionI
         .iter()
         .flat_map(coercion::expr_into_utxo_refs)
         .flatten()
-        .map(|x| primitives::TransactionInput {
-            transaction_id: x.txid.as_slice().into(),
-            index: x.index as u64,
-        })
-        .collect();
+        .map(|x| coercion::utxo_ref_into_input(&x))
+        .collect::<Result<Vec<_>, _>>()?;
 
     Ok(without_duplicates(refs))
 }
@@ -505,11 +499,8 @@ fn compile_collateral(tx: &tir::Tx) -> Result<Vec<TransactionInput>, Error> {
         .filter_map(|collateral| collateral.utxos.as_option())
         .flat_map(coercion::expr_into_utxo_refs)
         .flatten()
-        .map(|x| primitives::TransactionInput {
-            transaction_id: x.txid.as_slice().into(),
-            index: x.index as u64,
-        })
-        .collect();
+        .map(|x| coercion::utxo_ref_into_input(&x))
+        .collect::<Result<Vec<_>, _>>()?;
 
     Ok(without_duplicates(refs))
 }
@@ -722,7 +713,7 @@ fn compile_single_mint_redeemer(
         .first()
         .ok_or(Error::MissingExpression("missing asset".to_string()))?;
     let policy = coercion::expr_into_bytes(&asset.policy)?;
-    let policy = primitives::Hash::from(policy.as_slice());
+    let policy = coercion::bytes_into_hash(policy.as_slice())?;
 
     let out = primitives::Redeemer {
         tag: primitives::RedeemerTag::Mint,
